@@ -56,6 +56,13 @@ class NodeVisitor(visitor.PartialVisitor[ast.AST]):
         if body is not None:
             for child in body:
                 yield child
+        if not isinstance(node, ast.If):
+            # The 'else' block of a try or loop statement and the 'finally' block
+            # run after the body, not instead of it (unlike the 'else' of an 'if').
+            for fieldname in ('orelse', 'finalbody'):
+                for child in getattr(node, fieldname, None) or ():
+                    if isinstance(child, ast.AST):
+                        yield child
 
 class NodeVisitorExt(visitor.VisitorExt[ast.AST]):
     ...
